@@ -77,4 +77,103 @@ func factsC10() {
 		}
 	}
 	addInt("c10SectionNameCompared", itoa(sn), "gateway.go sync{HTTP,TCP}RouteGateway: `*sectionName != listener.Name` filters")
+	factsC10Facade()
+}
+
+// c10Calls: source text of the callee of every call expression inside n, in source (pre-)order;
+// type conversions written as calls are included as they appear
+func c10Calls(rel string, n ast.Node) []string {
+	var res []string
+	ast.Inspect(n, func(x ast.Node) bool {
+		if c, ok := x.(*ast.CallExpr); ok {
+			res = append(res, c10Src(rel, c.Fun))
+		}
+		return true
+	})
+	return res
+}
+
+// c10Returns: source text of the results of every return statement inside n, in source order
+func c10Returns(rel string, n ast.Node) []string {
+	var res []string
+	ast.Inspect(n, func(x ast.Node) bool {
+		if r, ok := x.(*ast.ReturnStmt); ok {
+			var parts []string
+			for _, e := range r.Results {
+				parts = append(parts, c10Src(rel, e))
+			}
+			res = append(res, strings.Join(parts, ", "))
+		}
+		return true
+	})
+	return res
+}
+
+// factsC10Facade: the GatewayClass filter of the long-lived cache facade (pkg/controller/services/cache.go).
+// The history theorems of Props/C10Hist.lean are about a facade whose isValidGateway answers from the
+// GatewayClass objects of the CURRENT cluster; these facts pin the source shape that makes it so.
+func factsC10Facade() {
+	cf := "pkg/controller/services/cache.go"
+	vg := c10Method(cf, "isValidGateway")
+	addStrList("c10ValidGatewayCalls", c10Calls(cf, vg.Body),
+		"cache.go isValidGateway: callee of every call, in source order (reads the GatewayClass first, on every call)")
+	addStrList("c10ValidGatewayReturns", c10Returns(cf, vg.Body),
+		"cache.go isValidGateway: results of every return statement, in source order")
+	var stmts []string
+	for _, st := range vg.Body.List {
+		switch st.(type) {
+		case *ast.AssignStmt:
+			stmts = append(stmts, "assign")
+		case *ast.IfStmt:
+			stmts = append(stmts, "if")
+		case *ast.ReturnStmt:
+			stmts = append(stmts, "return")
+		case *ast.ExprStmt:
+			stmts = append(stmts, "expr")
+		default:
+			stmts = append(stmts, "other")
+		}
+	}
+	addStrList("c10ValidGatewayStmts", stmts, "cache.go isValidGateway: kinds of the top-level statements of the body")
+	var calls []string
+	for _, c := range c10Calls(cf, c10Method(cf, "getGatewayClass").Body) {
+		if !strings.HasPrefix(c, "(") { // conversions (*gatewayv1.GatewayClass)(&cl)
+			calls = append(calls, c)
+		}
+	}
+	addStrList("c10GetGatewayClassCalls", calls,
+		"cache.go getGatewayClass: callee of every call but the pointer conversions (validates the API, then c.get in each of the three branches)")
+	var gg, wr, cmps []string
+	for _, sfx := range []string{"A2", "B1", ""} {
+		gg = append(gg, c10Calls(cf, c10Method(cf, "GetGateway"+sfx).Body)...)
+		wr = append(wr, c10Returns(cf, c10Method(cf, "IsValidGateway"+sfx).Body)...)
+		cmps = append(cmps, c10Binaries(cf, c10Method(cf, "IsValidGatewayClass"+sfx).Body)...)
+	}
+	addStrList("c10GetGatewayCalls", gg, "cache.go GetGatewayA2/B1/(v1): callee of every call (client.Get of the Gateway, then IsValidGateway*)")
+	addStrList("c10ValidGatewayWrappers", wr, "cache.go IsValidGatewayA2/B1/(v1): the returned expression (all three delegate to isValidGateway)")
+	addStrList("c10ValidClassCmps", cmps, "cache.go IsValidGatewayClassA2/B1/(v1): the comparison each one returns")
+	var fields []string
+	for _, d := range load(cf).f.Decls {
+		gd, ok := d.(*ast.GenDecl)
+		if !ok {
+			continue
+		}
+		for _, sp := range gd.Specs {
+			ts, ok := sp.(*ast.TypeSpec)
+			if !ok || ts.Name.Name != "c" {
+				continue
+			}
+			if st, ok := ts.Type.(*ast.StructType); ok {
+				for _, f := range st.Fields.List {
+					if len(f.Names) == 0 {
+						fields = append(fields, "embedded:"+c10Src(cf, f.Type))
+					}
+					for _, n := range f.Names {
+						fields = append(fields, n.Name)
+					}
+				}
+			}
+		}
+	}
+	addStrList("c10FacadeFields", fields, "cache.go `type c struct`: field names of the cache facade (nothing that could remember a GatewayClass answer)")
 }
